@@ -226,6 +226,32 @@ def parse_batch(rep):
     return reason, out
 
 
+def is_straggler_divergence(first_rep, later_rep):
+    """the replayed BatchResult differs from the first one only in items that were STARTED at first and finished later"""
+    a, b = parse_batch(first_rep), parse_batch(later_rep)
+    if not a or not b or len(a[1]) != len(b[1]):
+        return False
+    diff = [(x, y) for x, y in zip(a[1], b[1]) if (x["status"], x["result"]) != (y["status"], y["result"])]
+    return bool(diff) and all(x["status"] == "STARTED" and y["status"] in ("SUCCEEDED", "FAILED") for x, y in diff)
+
+
+def classify_batch_divergence(first_rep, later_rep):
+    """known causes of a rebuilt (ReplayChildren) BatchResult differing from the first one, or None"""
+    a, b = parse_batch(first_rep), parse_batch(later_rep)
+    if not a or not b or len(a[1]) != len(b[1]):
+        return None
+    diff = [(x, y) for x, y in zip(a[1], b[1]) if (x["status"], x["result"], x["error"]) != (y["status"], y["result"], y["error"])]
+    if not diff:
+        return None
+    if all(x["status"] == "STARTED" and y["status"] in ("SUCCEEDED", "FAILED") for x, y in diff):
+        return "replay-children-straggler"
+    if all(x["status"] == y["status"] == "FAILED" and x["result"] == y["result"] for x, y in diff):
+        # same failure, but the error object differs (first run: exception raised by the child handler, i.e. CallableRuntimeError;
+        # rebuilt: the error recorded for the child context, i.e. the original exception type)
+        return "replay-children-error-type"
+    return None
+
+
 def c09(ctx, e):
     nodes = node_index(e.prog)
     for path, node in nodes.items():
@@ -286,8 +312,10 @@ def c09(ctx, e):
         # replayed result equals the first one
         later = {(k, r) for (_, k, r) in dl[1:]}
         if later and later != {(first[1], first[2])}:
-            ctx.violation("replayed-batch-differs", f"{path}: first {first[2][:90]} ... replay {sorted(later)[0][1][:90]}", scen_of(e))
-            return
+            sig = classify_batch_divergence(first[2], sorted(later)[0][1]) or "replayed-batch-differs"
+            ctx.violation(sig, f"{path}: first {first[2][:90]} ... replay {sorted(later)[0][1][:90]}", scen_of(e))
+            if sig == "replayed-batch-differs":
+                return
         # concurrency bound
         maxc = node.get("maxc")
         if maxc:
